@@ -1,17 +1,56 @@
 /-
   WS.Props.C04 — fragmented messages are reassembled in order, undisturbed by control frames.
-  (theorems added below as they are proved; the correspondence runs do not depend on them)
 -/
-import WS.Model.Conn
+import WS.Lemmas.Loop
 namespace WS.Props.C04
-open WS WS.Model
+open WS WS.Model WS.Spec WS.Lemmas.RecvStrict WS.Lemmas.Parser WS.Lemmas.Stream WS.Lemmas.ShortWrites WS.Lemmas.Loop
 
-/-- `continuous_frame.add` on a first fragment records its opcode and payload; on later fragments
-    appends the payload and keeps the first opcode. -/
+/-- `continuous_frame.add` on a later fragment appends the payload and keeps the first opcode. -/
 theorem add_keeps_first_opcode (c : Conn) (f : Frame) (op : Nat) (d : Bytes) (h : c.contData = some (op, d)) :
     (c.contAdd f).contData = some (op, d ++ f.data) := by
   unfold Conn.contAdd
   simp only [h]
   split <;> rfl
+
+theorem fuel_enough (c : Conn) (ws : List WireFrame) (tail : Bytes) (hd : DecodesTo (pending c) ws tail) :
+    ws.length ≤ c.sock.size + c.buf.length + 2 := by
+  have h1 := decodesTo_len hd
+  have h2 := bytesOf_le_size c.sock.inp
+  simp [pending] at h1
+  unfold Sock.size
+  omega
+
+/-- **C04_reassembly** — for EVERY message: any number of fragments (empty ones included), text or binary,
+    any number of pings (≤ 125 bytes) and pongs before every fragment, delivered over ANY chunking of the
+    byte stream: one `recv_data_frame()` call on a connection with an idle reassembly state returns the
+    message ONCE, with the opcode of its FIRST fragment and the IN-ORDER concatenation of all fragment
+    payloads (or the payload error for a text message that is not UTF-8, unless validation is off), consumes
+    exactly the message's frames (`tail` is what remains pending), and leaves the reassembly state idle again —
+    which is what lets consecutive messages be delivered in the order sent. -/
+theorem C04_reassembly (fs : List Frame) (hm : MsgFrames none fs)
+    (c : Conn) (ws : List WireFrame) (tail : Bytes)
+    (hr : Ready c) (hidle : LoopInv c none []) (hmap : ws.map frameOfWire = fs)
+    (hval : ∀ w ∈ ws, validate (frameOfWire w) c.skipUtf8 = none)
+    (hd : DecodesTo (pending c) ws tail) :
+    ∃ c', c.recvDataFrame false =
+            (deliver c.skipUtf8 (firstDataOp fs) (lastFrame fs) (msgPayload fs), c') ∧
+      Ready c' ∧ pending c' = tail ∧ LoopInv c' none [] := by
+  have hfu : fs.length ≤ c.sock.size + c.buf.length + 2 := by
+    rw [← hmap, List.length_map]; exact fuel_enough c ws tail hd
+  obtain ⟨c', e, r, p, inv, _, _⟩ := loop_message fs none hm c [] ws tail _ hr hidle hmap hval hd hfu
+  exact ⟨c', by simpa [Conn.recvDataFrame, msgOp] using e, r, p, inv⟩
+
+/-- non-vacuity: a text message "ab"+"c" cut in two fragments with a ping in between is a `MsgFrames`. -/
+example : MsgFrames none
+    [{ fin := 0, rsv1 := 0, rsv2 := 0, rsv3 := 0, opcode := 1, mask := 0, data := [0x61, 0x62] },
+     { fin := 1, rsv1 := 0, rsv2 := 0, rsv3 := 0, opcode := 9, mask := 0, data := [0x70] },
+     { fin := 1, rsv1 := 0, rsv2 := 0, rsv3 := 0, opcode := 0, mask := 0, data := [0x63] }] :=
+  .firstMore (Or.inl rfl) rfl (.ping ⟨rfl, rfl, by decide⟩ (.contLast rfl rfl))
+
+example : msgPayload
+    [{ fin := 0, rsv1 := 0, rsv2 := 0, rsv3 := 0, opcode := 1, mask := 0, data := [0x61, 0x62] },
+     { fin := 1, rsv1 := 0, rsv2 := 0, rsv3 := 0, opcode := 9, mask := 0, data := [0x70] },
+     { fin := 1, rsv1 := 0, rsv2 := 0, rsv3 := 0, opcode := 0, mask := 0, data := [0x63] }] = [0x61, 0x62, 0x63] := by
+  decide
 
 end WS.Props.C04
